@@ -104,6 +104,13 @@ def gen_module(rng, modname, with_async_gen=False):
                "    try:\n        mf3(a) if False else thrower(a)\n    except ValueError:\n        pass\n    return _r.ret(_t, 'recovered')\n\n")
     src.append("def thrower(a):\n" + enter_line("thrower", ["a"]) + body_exit("raise") + "\n")
     funcs.append({"qual": "catcher", "call": "catcher", "kind": "function", "mk": PARAM_SHAPES[0][2], "exit": "const", "params": ["a"]})
+    # one position that sees many tuple shapes, each homogeneous in itself, of two element classes (more shapes than the
+    # default rewriter keeps apart: whatever it makes of them has to admit every one)
+    src.append("def tup_take(t):\n" + enter_line("tup_take", ["t"]) + "    return _r.ret(_t, t)\n\n"
+               "def tup_shapes(a):\n" + enter_line("tup_shapes", ["a"]) +
+               "    for t in ((1,), (1, 2), (1, 2, 3), ('x',), ('x', 'y'), ('x', 'y', 'z'), (1, 2, 3, 4)):\n        tup_take(t)\n"
+               "    return _r.ret(_t, 7)\n\n")
+    funcs.append({"qual": "tup_shapes", "call": "tup_shapes", "kind": "function", "mk": PARAM_SHAPES[0][2], "exit": "const", "params": ["a"]})
     # values that contain themselves: a list holding itself, a tree of dicts with parent links
     src.append("def cyc_take(x):\n" + enter_line("cyc_take", ["x"]) +
                "    d = {'kids': [], 'up': None}\n    c = {'kids': [], 'up': d}\n    d['kids'].append(c)\n    return _r.ret(_t, d)\n\n"
